@@ -10,6 +10,7 @@ from __future__ import unicode_literals
 import datetime
 import functools
 import json
+import math
 
 import six
 
@@ -157,6 +158,12 @@ def dump_quantity(quantity, version=LATEST_VER):
 
 
 def dump_decimal(decimal, version=LATEST_VER):
+    if isinstance(decimal, float):
+        # The format spells the non-finite values n:INF, n:-INF and n:NaN.
+        if math.isnan(decimal):
+            return 'n:NaN'
+        elif math.isinf(decimal):
+            return 'n:INF' if decimal > 0 else 'n:-INF'
     return 'n:%f' % decimal
 
 
